@@ -99,6 +99,78 @@ def check_case(rep, drv, case, rng, pairs=PAIRS):
                                      dict(case.replay, kind='agree', bytes=data.hex()))
 
 
+def check_open_type_records(rep, rng, n):
+    """records whose ANY field holds a typed value (open types): the canonical encoders write the wrapper and the inner value in
+    their own codec, so DER output is read by the DER, CER and BER decoders and CER output by the CER and BER ones, with an empty
+    remainder and the same inner value (resolved through the type map, or as the inner value's own encoding when not resolved)"""
+    from harness.props import c18
+    from harness import wire
+    g0 = gen.Gen(rng, max_depth=1, allow_any=False)
+    for _ in range(n):
+        container = rng.choice(['seq', 'set'])
+        id_kind = rng.choice(['int', 'oid'])
+        tagging = rng.choice([None, ('i', rng.randrange(0, 5)), ('e', rng.randrange(0, 5))])
+        if container == 'set' and tagging is None:
+            tagging = (rng.choice('ie'), rng.randrange(0, 5))
+        multi = rng.choice([None, None, 'seqof', 'setof'])
+        key = rng.choice([0, 1, 300, -129]) if id_kind == 'int' else rng.choice([(1, 3, 6, 1), (2, 999, 3), (0, 0)])
+        t = g0.ty(1)
+        try:
+            shape = c18.Shape(container, id_kind, tagging, multi, {key: t})
+        except Exception:  # noqa
+            continue
+        count = 1 if not multi else rng.choice([1, 2, 3])
+        inners = [g0.val(t) for _ in range(count)]
+        rep.case('open type %s %s' % (shape.describe(), [gen.val_sexp(w) for w in inners]), nontrivial=True)
+        rp = {'kind': 'opentype', 'shape': shape.describe(), 'id': str(key), 'inner_type': gen.ty_sexp(t),
+              'inner_values': [gen.val_sexp(w) for w in inners]}
+        for e in ('der', 'cer'):
+            try:
+                data = codec.ENC[e].encode(shape.build(key, inners, [t] * count))
+                raws = [codec.ENC[e].encode(gen.build_value(t, w)) for w in inners]
+            except Exception as ex:  # noqa
+                from harness import sigs
+                if isinstance(ex, OverflowError) and sigs.has_real_default(t):
+                    rep.fail('T12-real-default-through-float', repr(ex), rp)
+                elif codec.classify(ex) == 'liberr' and sigs.has_constructed_default(t):
+                    rep.fail('T11-default-of-constructed-type', repr(ex), rp)
+                else:
+                    rep.fail('opentype-encode-' + codec.classify(ex), '%s encoder: %r' % (e.upper(), ex), dict(rp, enc=e))
+                continue
+            if e == 'cer' and any(wire.e1_applies(t, w) for w in inners):
+                rep.count('skipped-stray-eoo-region')
+                continue
+            for e2, d in PAIRS:
+                if e2 != e:
+                    continue
+                for resolve in (True, False):
+                    rep.count('opentype-pair=%s>%s' % (e, d))
+                    try:
+                        res, rest = codec.DEC[d].decode(data, asn1Spec=shape.schema, **({'decodeOpenTypes': True} if resolve else {}))
+                    except Exception as ex:  # noqa
+                        rep.fail('opentype-%s-output-refused-by-%s' % (e, d), '%s output %s refused by the %s decoder: %r' % (
+                            e.upper(), data.hex()[:120], d.upper(), ex), dict(rp, enc=e, dec=d, bytes=data.hex()))
+                        continue
+                    if rest != b'':
+                        rep.fail('opentype-remainder', 'remainder %s' % rest.hex()[:60], dict(rp, enc=e, dec=d, bytes=data.hex()))
+                        continue
+                    try:
+                        field = res['value']
+                        items = [field[i] for i in range(len(field))] if multi else [field]
+                        if resolve:
+                            got = [gen.abstract(t, it) for it in items]
+                            ok = len(got) == count and all(any(gen.val_equiv(t, a, w) for a in got) for w in inners) and (
+                                multi == 'setof' or all(gen.val_equiv(t, a, w) for a, w in zip(got, inners)))
+                        else:
+                            got = [it.asOctets() for it in items]
+                            ok = sorted(got) == sorted(raws) if multi == 'setof' else got == raws
+                    except Exception as ex:  # noqa
+                        ok, got = False, repr(ex)
+                    if not ok:
+                        rep.fail('opentype-%s>%s-value' % (e, d), 'inner values read back as %s' % (str(got)[:200],),
+                                 dict(rp, enc=e, dec=d, bytes=data.hex(), resolve=resolve))
+
+
 def run(rep, tier, seed):
     common.prove(rep)
     rng = common.rng_for(seed, 'C02')
@@ -106,7 +178,9 @@ def run(rep, tier, seed):
     n = 1500 if tier == 'quick' else 40000
     rep.rule = ('generated (type, value) x (encoder, decoder) in {(DER,DER),(DER,CER),(DER,BER),(CER,CER),(CER,BER)}; strings longer '
                 'than 1000 octets, SET/SET OF members of unequal length and shared prefixes, DEFAULT equal/unequal, explicitly tagged '
-                'primitives; agreement of the three decoders on mutated encodings; non-trivial = depth>=1 or tagged')
+                'primitives; agreement of the three decoders on mutated encodings; records with an open type field holding typed inner values '
+                '(SEQUENCE/SET x untagged/implicit/explicit ANY x single/SEQUENCE OF/SET OF) through the same five pairs, resolved and raw; '
+                'non-trivial = depth>=1 or tagged')
     rep.assumptions = ['text codecs trusted', 'SET OF compared as multisets', 'decimal REAL excluded']
     from harness import sexp_types
     for ts, vs in CORPUS:
@@ -163,6 +237,7 @@ def run(rep, tier, seed):
             rep.case(case.canon, nontrivial=True)
             rep.count('long-strings-structured')
             check_case(rep, drv, case, None)
+    check_open_type_records(rep, rng, 120 if tier == 'quick' else 3000)
     for case in engine.gen_cases(rng, n, max_depth=3, allow_any=True):
         if not engine.representable(case):
             continue
